@@ -1,2 +1,2 @@
-import Hive.Model.SerixProto
-def main : IO Unit := Hive.Proto.run (none : Option Hive.Serix.Ty) Hive.Serix.stepLine
+import Hive.Model.SerixObj
+def main : IO Unit := Hive.Proto.run ((none, {}) : Option Hive.Serix.Ty × Hive.Serix.PSt) Hive.Serix.stepLine4
